@@ -25,6 +25,23 @@ mod verif_kani {
         kani::cover!(gt.wtime <= 100 && gt.winc > 0 && s > 0);
         kani::cover!(gt.wtime <= 100 && gt.winc <= 0 && s == 0);
     }
+    // BOUNDED, quick tier (mover clock 101..=355 ms, movestogo absent or 1..=3, everything else arbitrary): the plan is within one
+    // millisecond of 0.8 * (clock - 100) / mtg -- the small-clock band where a floor or a wrong divisor shows first
+    #[kani::proof]
+    fn c09_bounded_small_clock() {
+        let d: u8 = kani::any(); let m: u8 = kani::any();
+        kani::assume(m >= 1 && m <= 3);
+        let has: bool = kani::any(); let white: bool = kani::any();
+        let w: i128 = 101 + d as i128;
+        let other: i128 = kani::any(); let oinc: i128 = kani::any(); let inc: i128 = kani::any();
+        let gt = if white { GameTime { wtime: w, btime: other, winc: inc, binc: oinc, movestogo: if has { Some(m as u32) } else { None } } }
+                 else { GameTime { btime: w, wtime: other, binc: inc, winc: oinc, movestogo: if has { Some(m as u32) } else { None } } };
+        let s = gt.calculate_time_slice(if white { White } else { Black });
+        let mtg: i64 = if has { m as i64 } else { 30 };
+        assert!(s <= 400);
+        assert!((s as i64) * mtg * 10 <= 8 * (w as i64 - 100) + 10 * mtg);
+        assert!((s as i64) * mtg * 10 + 10 * mtg >= 8 * (w as i64 - 100));
+    }
     // BOUNDED (i16 clock, movestogo absent or 1..=64, everything else arbitrary): the plan is within one
     // millisecond of 0.8 * (clock - 100) / mtg, hence a function of the mover's clock only
     #[kani::proof]
